@@ -317,6 +317,7 @@ type TDCfg struct {
 	EmptyTag    bool // fields without config name
 	NumericTag  bool // fields renamed to a small number (addresses a list index)
 	numTag      int
+	wordIdx     int
 	NoRegexp    bool
 	NoArrays    bool
 	Cats        []string // catalogue kinds usable as field types
@@ -434,6 +435,12 @@ func GenStructTD(t *rapid.T, cfg *TDCfg, depth int) *TD {
 			f.T = GenTD(t, cfg, depth-1)
 			f.Tag = strconv.Itoa(cfg.numTag) // unique over the whole type, so inline structs cannot collide
 			cfg.numTag++
+		case opt == 6 && cfg.wordIdx < len(optionWords):
+			// a field renamed to a word that is an option when it follows a comma (each word once per type, so that
+			// inline structs cannot collide)
+			f.T = GenTD(t, cfg, depth-1)
+			f.Tag = optionWords[cfg.wordIdx]
+			cfg.wordIdx++
 		case opt == 4 && cfg.EmptyTag:
 			f.T = GenTD(t, cfg, depth-1)
 			f.Tag = ""
@@ -484,6 +491,17 @@ func GenStructTD(t *rapid.T, cfg *TDCfg, depth int) *TD {
 		}
 	}
 	return td
+}
+
+var optionWords = []string{"ignore", "inline", "squash", "merge", "replace", "append", "prepend"}
+
+func indexOf(l []string, s string) int {
+	for i, x := range l {
+		if x == s {
+			return i
+		}
+	}
+	return 0
 }
 
 // plainStructField: a field of struct kind (no pointer) with a plain, non-numeric name of its own.
